@@ -105,12 +105,12 @@ func advance(rng *rand.Rand, P WTable, tag string, extra int) WTable {
 }
 
 type bigCase struct {
-	name     string // counter / fingerprint name
-	in       save2In
-	kind     string // "error" | "crash" | "rlimit" | "rlimit-ok" | "observe"
-	k, w     int    // write step k of w (error / crash)
-	limit    uint64
-	suffix   string // strace: the (deterministic) random suffix of the temp file name
+	name   string // counter / fingerprint name
+	in     save2In
+	kind   string // "error" | "crash" | "rlimit" | "rlimit-ok" | "observe"
+	k, w   int    // write step k of w (error / crash)
+	limit  uint64
+	suffix string // strace: the (deterministic) random suffix of the temp file name
 }
 
 func posClass(k, w int) string {
